@@ -1281,6 +1281,71 @@ fn mode_stallproc(args: &std::collections::HashMap<String, String>) -> Value {
     json!({"evaluations": evaluations, "cells": cells, "outcomes": outcomes, "inconclusive_cases": inconclusive, "violations": violations, "samples": samples})
 }
 
+// ------------------------------------------------------------------------------------------------
+// The generation is a 16-bit counter that skips 0: 32767 publications bring it back to the value a
+// reader loaded before it started to copy. `aba` stalls a reader after its k-th word while exactly
+// c x 32767 publications complete, and reports what the call then returns.
+fn mode_aba(args: &std::collections::HashMap<String, String>) -> Value {
+    use std::cell::{Cell, RefCell};
+    use std::rc::Rc;
+    let (shard, nshards) = shard_of(args);
+    let dir = workdir();
+    let mut violations: Vec<Value> = Vec::new();
+    let mut evaluations = 0u64;
+    let mut blends = 0u64;
+    let mut samples = Vec::new();
+    let mut job = 0u64;
+    for g0 in [2u16, 40000, 65534] {
+        for k in 0..6usize {
+            for cycles in [1u64, 2] {
+                job += 1;
+                if job % nshards != shard {
+                    continue;
+                }
+                let path = dir.join(format!("aba{}", job));
+                std::fs::write(&path, segment_bytes(1, g0, 1)).unwrap();
+                let writer = Rc::new(RefCell::new(new_writer(&path)));
+                let cpath = CString::new(path.to_str().unwrap()).unwrap();
+                let mut reader = ShmReader::new(&cpath).unwrap();
+                let _ = reader.msnapshot();
+                writer.borrow_mut().write(&encode(2));
+                let fired = Rc::new(Cell::new(false));
+                {
+                    let (w, f) = (writer.clone(), fired.clone());
+                    set_handler(Some(Box::new(move |p: &Point| {
+                        if p.site == "rword.post" && p.word == k && !f.get() {
+                            f.set(true);
+                            for n in 0..32767 * cycles {
+                                w.borrow_mut().write(&encode(3 + n));
+                            }
+                        }
+                    })));
+                }
+                let res = reader.msnapshot().map(decode);
+                set_handler(None);
+                evaluations += 1;
+                if let Ok(Decoded::Blend(wd)) = &res {
+                    blends += 1;
+                    let origin = shmsim::record::blend_origin(wd);
+                    if violations.len() < 6 {
+                        violations.push(json!({"sig": "generation-aba-blend", "detail": format!("reader stalled after copying word {} while exactly {} x 32767 publications completed (generation {} before and after): snapshot() returned words of publications {:?}", k, cycles, g0.wrapping_add(2), origin), "replay": ""}));
+                    }
+                    if samples.len() < 2 {
+                        samples.push(json!({"stalled_after_word": k, "publications_meanwhile": 32767 * cycles, "returned_words_of_publications": origin}));
+                    }
+                } else if let Ok(Decoded::Publication(i)) = res {
+                    if samples.len() < 3 {
+                        samples.push(json!({"stalled_after_word": k, "publications_meanwhile": 32767 * cycles, "returned_publication": i}));
+                    }
+                }
+                drop(reader);
+            }
+        }
+    }
+    let _ = std::fs::remove_dir_all(&dir);
+    json!({"evaluations": evaluations, "blends_accepted": blends, "violations": violations, "samples": samples})
+}
+
 fn mode_replay(args: &std::collections::HashMap<String, String>) -> Value {
     let file = arg_str(args, "file", "");
     let v: Value = vworld::serde_json::from_str(&std::fs::read_to_string(&file).expect("replay file")).expect("json");
@@ -1318,6 +1383,7 @@ fn main() {
         "c03long" => mode_c03long(&args),
         "c18cap" => mode_c18cap(&args),
         "stallproc" => mode_stallproc(&args),
+        "aba" => mode_aba(&args),
         "stallchild" => mode_stallchild(&args),
         "replay" => mode_replay(&args),
         m => panic!("unknown mode {:?}", m),
